@@ -2,7 +2,7 @@ SPECIFICATION Spec
 CONSTANTS
   Items = {"U3", "L0", "L1", "L2", "LB", "T0", "MA", "MS", "PW", "EA", "H1", "VS", "VB", "VT", "TF"}
   MaxItems = 3
-  Codes = {1, 2, 12, 99}
+  Codes = {1, 12}
   LenModes = {"fit", "eq", "m1", "p1", "l19", "l20", "big"}
   CutAll = TRUE
 INVARIANTS SizeLaw EnvelopeSound
